@@ -267,7 +267,15 @@ func newTyped[K ristretto.Key](cfg Cfg, mk func(int) K, unmk func(K) int) (cache
 		conf.KeyToHash = func(k K) (uint64, uint64) { return collideHash(unmk(k)) }
 	}
 	if cfg.CostFn {
-		conf.Cost = func(v int64) int64 { vsched.Log(evCostFn, v, 0, 0); return v%3 + 1 }
+		// v%3+1 for the value ids the scenarios use (all > 0); the zero value - which nobody ever
+		// sets - gets a cost no real value has, so that "cost of the wrong value" cannot coincide
+		conf.Cost = func(v int64) int64 {
+			vsched.Log(evCostFn, v, 0, 0)
+			if v == 0 {
+				return 4
+			}
+			return v%3 + 1
+		}
 	}
 	if cfg.ShouldUpdate == "refuse-even" {
 		conf.ShouldUpdate = func(cur, prev int64) bool {
